@@ -16,10 +16,11 @@ func onSchema(schema *jsonapi.Schema, r jsonapi.Resource) string {
 		return "nil resource"
 	}
 	tn := r.GetType().Name
-	if tn == "" || !schema.HasType(tn) {
+	stp := typeByName(schema, tn) // a walk over schema.Types, not the library's own lookup
+	if tn == "" || stp == nil {
 		return fmt.Sprintf("type %q is not in the schema", tn)
 	}
-	st := schema.GetType(tn)
+	st := *stp
 	for name, a := range r.Attrs() {
 		sa, ok := st.Attrs[name]
 		if !ok || sa != a {
@@ -99,7 +100,52 @@ func c05Call(schema *jsonapi.Schema, f func() (any, error), observe func(any) (s
 }
 
 func c05Payload(c *ctx, sc schemaSpec, payload string, how string) {
+	c05PayloadOn(c, sc, sc.build(), payload, how)
+}
+
+// editedSchema builds sc's schema plus a type "gone", uses it through every
+// lookup the library offers (whatever caches exist are now warm), removes
+// "gone" again and adds a type "late".  The returned spec describes the schema
+// as it is afterwards.
+// variant 0: remove then add (same number of types), 1: remove only, 2: add then remove.
+func editedSchema(sc schemaSpec, variant int) (*jsonapi.Schema, schemaSpec) {
 	schema := sc.build()
+	gone := typeSpec{name: "gone", fields: []fieldSpec{{name: "title", code: 1}}}
+	late := typeSpec{name: "late", fields: []fieldSpec{{name: "a", code: 1}}}
+	holder := typeSpec{name: "holder", fields: []fieldSpec{{rel: true, name: "g", toOne: true, target: "gone"}}}
+	_ = schema.AddType(gone.softType())
+	_ = schema.AddType(holder.softType())
+	guard(func() {
+		schema.HasType("gone")
+		schema.GetType("gone")
+		schema.Rels()
+		schema.Check()
+		_, _ = jsonapi.NewURLFromRaw(schema, "/gone?include=x")
+		_, _ = jsonapi.NewURLFromRaw(schema, "/holder/1/g")
+		_, _ = jsonapi.UnmarshalIdentifier([]byte(`{"id":"1","type":"gone"}`), schema)
+		_, _ = jsonapi.UnmarshalResource([]byte(`{"id":"1","type":"gone","attributes":{"title":"x"}}`), schema)
+		_, _ = jsonapi.UnmarshalDocument([]byte(`{"data":[{"id":"1","type":"gone"},{"id":"2","type":"holder"}]}`), schema)
+	})
+	out := schemaSpec{types: append(append([]typeSpec{}, sc.types...), holder), wrapped: map[string]bool{}}
+	switch variant {
+	case 0:
+		schema.RemoveType("gone")
+		_ = schema.AddType(late.softType())
+		out.types = append(out.types, late)
+	case 1:
+		schema.RemoveType("gone")
+	default:
+		_ = schema.AddType(late.softType())
+		schema.RemoveType("gone")
+		out.types = append(out.types, late)
+	}
+	for k, v := range sc.wrapped {
+		out.wrapped[k] = v
+	}
+	return schema, out
+}
+
+func c05PayloadOn(c *ctx, sc schemaSpec, schema *jsonapi.Schema, payload string, how string) {
 	tree := parseJSON([]byte(payload))
 	env := newStdEnv()
 	env.addTree(tree)
@@ -127,7 +173,7 @@ func c05Payload(c *ctx, sc schemaSpec, payload string, how string) {
 		c05Call(schema, func() (any, error) { return jsonapi.UnmarshalPartialResource(data, schema) }, func(v any) (string, string) {
 			p := v.(*jsonapi.SoftResource)
 			off := ""
-			if !schema.HasType(p.GetType().Name) {
+			if typeByName(schema, p.GetType().Name) == nil {
 				off = "partial resource of a type that is not in the schema"
 			}
 			return oPartial(p), off
@@ -147,7 +193,7 @@ func c05Payload(c *ctx, sc schemaSpec, payload string, how string) {
 		c05Call(schema, func() (any, error) { return jsonapi.UnmarshalIdentifier(data, schema) }, func(v any) (string, string) {
 			i := v.(jsonapi.Identifier)
 			off := ""
-			if !schema.HasType(i.Type) {
+			if typeByName(schema, i.Type) == nil {
 				off = "identifier of a type that is not in the schema"
 			}
 			return oL([]string{oS(i.ID), oS(i.Type)}), off
@@ -157,17 +203,18 @@ func c05Payload(c *ctx, sc schemaSpec, payload string, how string) {
 			off := ""
 			for _, i := range v.(jsonapi.Identifiers) {
 				it = append(it, oL([]string{oS(i.ID), oS(i.Type)}))
-				if !schema.HasType(i.Type) {
+				if typeByName(schema, i.Type) == nil {
 					off = "identifier of a type that is not in the schema"
 				}
 			}
 			return oL(it), off
 		}),
 	}
-	// NewRequest with this body
-	for _, m := range []string{http.MethodPost, http.MethodPatch, http.MethodGet} {
+	// NewRequest with this body: collection URL for the three methods, resource URL for PATCH
+	for _, mu := range [][2]string{{http.MethodPost, "/alltypes"}, {http.MethodPatch, "/alltypes"}, {http.MethodGet, "/alltypes"}, {http.MethodPatch, "/alltypes/x1"}} {
+		m, target := mu[0], mu[1]
 		r := c05Call(schema, func() (any, error) {
-			return jsonapi.NewRequest(httptest.NewRequest(m, "/alltypes", strings.NewReader(payload)), schema)
+			return jsonapi.NewRequest(httptest.NewRequest(m, target, strings.NewReader(payload)), schema)
 		}, func(v any) (string, string) {
 			req := v.(*jsonapi.Request)
 			off := ""
@@ -182,7 +229,7 @@ func c05Payload(c *ctx, sc schemaSpec, payload string, how string) {
 		})
 		results = append(results, r)
 	}
-	names := []string{"UnmarshalDocument", "UnmarshalResource", "UnmarshalPartialResource", "UnmarshalCollection", "UnmarshalIdentifier", "UnmarshalIdentifiers", "NewRequest(POST)", "NewRequest(PATCH)", "NewRequest(GET)"}
+	names := []string{"UnmarshalDocument", "UnmarshalResource", "UnmarshalPartialResource", "UnmarshalCollection", "UnmarshalIdentifier", "UnmarshalIdentifiers", "NewRequest(POST)", "NewRequest(PATCH)", "NewRequest(GET)", "NewRequest(PATCH /alltypes/x1)"}
 	var key, detail string
 	var obsParts []string
 	npanic, nok := 0, 0
@@ -236,7 +283,30 @@ func c05Payload(c *ctx, sc schemaSpec, payload string, how string) {
 	k.Replay = how
 }
 
+// payloads naming a type that was removed from the schema / added to it after
+// the schema had already been used
+func runC05Edited(c *ctx) {
+	d := randDoc(c.r)
+	for _, tn := range []string{"gone", "late", "holder", "other"} {
+		for _, p := range []string{
+			`{"id":"1","type":"` + tn + `"}`,
+			`{"data":{"id":"1","type":"` + tn + `"}}`,
+			`{"data":[{"id":"1","type":"other"},{"id":"2","type":"` + tn + `"}]}`,
+			`[{"id":"1","type":"` + tn + `"},{"id":"2","type":"other"}]`,
+			`{"data":{"id":"1","type":"` + tn + `","attributes":{"title":"x","a":"y"}}}`,
+			`{"id":"1","type":"` + tn + `","attributes":{"a":"y"}}`,
+			`{"data":null,"included":[{"id":"1","type":"` + tn + `"}]}`,
+		} {
+			for v := 0; v < 3; v++ {
+				schema, sc2 := editedSchema(d.sc, v)
+				c05PayloadOn(c, sc2, schema, p, "schema-edited "+tn)
+			}
+		}
+	}
+}
+
 func runC05(c *ctx) {
+	runC05Edited(c)
 	n := 300
 	if c.thorough() {
 		n = 8000
